@@ -10,3 +10,11 @@ Local Open Scope string_scope.
 Example C01_mutating_commands_are_one_locked_transaction :
   concat (map mutating_ok mutating_entries) = [].
 Proof. vm_compute. reflexivity. Qed.
+
+(** the lock file is never replaced: every process flocks the same inode. *)
+Example C01_lock_file_is_never_replaced : withlock_prim_ok = [].
+Proof. vm_compute. reflexivity. Qed.
+
+(** init takes no lock and only creates what is missing (MkdirAll + the no-truncate ensure): it never renames, removes or rewrites a log. *)
+Example C01_init_only_creates : init_ok = [].
+Proof. vm_compute. reflexivity. Qed.
